@@ -85,7 +85,14 @@ def run_pkg(pid, pkgdir, files, tier, workdir, only, nproc, seed):
                     if k.startswith('thorough.'):
                         o[k[len('thorough.'):]] = v
             o['tier'] = tier
-            jobs.append((pkgdir, hf, name, o, stubs))
+            K = int(o.get('split', 0) or 0)
+            if K > 1:
+                for si in range(K):
+                    oo = dict(o)
+                    oo['split_index'] = si
+                    jobs.append((pkgdir, hf, name, oo, stubs))
+            else:
+                jobs.append((pkgdir, hf, name, o, stubs))
     results = []
     try:
         if nproc <= 1 or len(jobs) <= 1:
@@ -99,8 +106,49 @@ def run_pkg(pid, pkgdir, files, tier, workdir, only, nproc, seed):
     finally:
         _SRV.close()
         _SRV = None
+    results = merge_splits(results)
     results.sort(key=lambda r: r['harness'])
     return results, load_s
+
+
+def merge_splits(results):
+    by = {}
+    out = []
+    for r in results:
+        if not r['opts'].get('split'):
+            out.append(r)
+            continue
+        m = by.get(r['harness'])
+        if m is None:
+            by[r['harness']] = r
+            r['split_parts'] = 1
+            out.append(r)
+            continue
+        m['split_parts'] += 1
+        for label, a in r['asserts'].items():
+            b = m['asserts'].get(label)
+            if b is None:
+                m['asserts'][label] = a
+            else:
+                for k in ('checked', 'proved', 'nviol', 'unknown'):
+                    b[k] += a[k]
+        m['violations'] += r['violations']
+        for k, w in r['reach'].items():
+            m['reach'].setdefault(k, w)
+        for k, v in r['reach_count'].items():
+            m['reach_count'][k] = m['reach_count'].get(k, 0) + v
+        for k, v in r['ends'].items():
+            m['ends'][k] = m['ends'].get(k, 0) + v
+        m['inconclusive'] += r['inconclusive']
+        m['wall_s'] = max(m['wall_s'], r['wall_s'])
+        for k, v in r['stats'].items():
+            if isinstance(v, (int, float)):
+                m['stats'][k] = m['stats'].get(k, 0) + v
+        m['funcs_encoded'].update(r['funcs_encoded'])
+        m['models_used'] = sorted(set(m['models_used']) | set(r['models_used']))
+        m['stubs_used'] = sorted(set(m['stubs_used']) | set(r['stubs_used']))
+        m['queries_log'] += r['queries_log']
+    return out
 
 
 def cross_check(queries, workdir, cap_s=20):
@@ -303,6 +351,7 @@ def do_check(pid, tier, seed, args, workdir, t_start):
     if os.path.isdir(wdir):
         shutil.rmtree(wdir)
     seen_known = set()
+    seen_viol = set()
     for r in all_results:
         for (k, info) in r['inconclusive']:
             inconclusive.append((r['harness'], k, info))
@@ -324,9 +373,12 @@ def do_check(pid, tier, seed, args, workdir, t_start):
                 safe = re.sub(r'[^A-Za-z0-9_.-]+', '_', w['label'])[:60]
                 path = os.path.join(wdir, '%s__%s_%d.json' % (r['harness'], safe, nviol))
                 json.dump(w, open(path, 'w'), indent=1)
+                nviol += 1
+                if (r['harness'], w['label']) in seen_viol:
+                    continue   # further witnesses of the same obligation are saved but not printed
+                seen_viol.add((r['harness'], w['label']))
                 lines.append('VIOLATION property=%s replay=%s' % (pid, path))
                 lines.append('  harness=%s label=%s native=%s' % (r['harness'], w['label'], json.dumps(w.get('native'))))
-                nviol += 1
             else:
                 inconclusive.append((r['harness'], 'counterexample-not-reproduced',
                                      w['label'] + ' native=' + json.dumps(w.get('native'))))
